@@ -9,6 +9,12 @@ Requests (model part first, implementation-only parameters after it):
         wallet CONFIGURATION x HISTORY x every public-view entry point.  conf: master | acctprv | acctpub | single |
         singlepub, or ms:<c0>+<c1>[+<c2>]:<own cosigner id>.  Response tokens (compared with the wallet model):
         <ok|err>:<output taint>:<codes of wallet.main_key[/per cosigner wallet]>:<codes of the returned WalletKeys|->
+  pvk <src> <secret hex> <chain hex> <network> <wt> <Entry>@<argspec>[;<argspec>...] ...
+  pvw <conf> <seed hex> <network> <wt> <flags> <Entry>@<argspec>[;<argspec>...] ...
+        EVERY public-view entry point called with non-default ARGUMENTS (scan only).  argspec: '-' or
+        ~name=value~name=value with value N | T | F | i<int> | s<text>.  Operations of key / wal histories may carry
+        arguments in the same notation: Pm~.. (HDKey.public_master), Pmm~.. (public_master_multisig), Wp~.. (wif_public),
+        Hw~.. (HDKey.wif), PmA~.. (Wallet.public_master).
 Response: "<state tokens as the driver prints them> ## <leaks or ->"
 
 A state token is  <ok|err>:<output taint P|S|->:<compressed 0|1>:<one code per attribute A|N|P|S>  where S means
@@ -204,6 +210,84 @@ def captured(f):
     return buf.getvalue()
 
 
+# ------------------------------------------------------------------ arguments of view entry points
+SECP_N = 0xFFFFFFFFFFFFFFFFFFFFFFFFFFFFFFFEBAAEDCE6AF48A03BBFD25E8CD0364141
+ASKS_PRIVATE = ('as_private', 'include_private', 'is_private')       # frozen: parameter names that ask for private output
+
+
+def decode_args(spec):
+    """'-' | ~name=value~...   value: N | T | F | i<int> | s<text>"""
+    kw = {}
+    if spec in ('-', ''):
+        return kw
+    for item in spec.split('~'):
+        if not item:
+            continue
+        k, v = item.split('=', 1)
+        if v == 'N':
+            kw[k] = None
+        elif v == 'T':
+            kw[k] = True
+        elif v == 'F':
+            kw[k] = False
+        elif v[0] == 'i':
+            kw[k] = int(v[1:])
+        elif v[0] == 's':
+            kw[k] = v[1:]
+        else:
+            raise ValueError('argument value ' + v)
+    return kw
+
+
+def asks_private(kw):
+    return any(kw.get(n) for n in ASKS_PRIVATE)
+
+
+# FROZEN from BIP44 / BIP45 / BIP48 / BIP49 / BIP84: purpose and the hardened levels down to the key that is shared as
+# "public master" (account level; for BIP45 the purpose level), per (witness type, multisig)
+PM_PURPOSE = {('legacy', False): 44, ('p2sh-segwit', False): 49, ('segwit', False): 84,
+              ('legacy', True): 45, ('p2sh-segwit', True): 48, ('segwit', True): 48}
+PM_LEVELS = {('legacy', False): ('purpose', 'coin', 'account'), ('p2sh-segwit', False): ('purpose', 'coin', 'account'),
+             ('segwit', False): ('purpose', 'coin', 'account'), ('legacy', True): ('purpose',),
+             ('p2sh-segwit', True): ('purpose', 'coin', 'account', 'script1'),
+             ('segwit', True): ('purpose', 'coin', 'account', 'script2')}
+
+
+def ckd_priv_hardened(k, chain, index):
+    """BIP32 CKDpriv for a hardened index, from the specification (stdlib only)."""
+    i64 = hmac.new(chain, b'\0' + k.to_bytes(32, 'big') + (index | 0x80000000).to_bytes(4, 'big'), hashlib.sha512).digest()
+    return (int.from_bytes(i64[:32], 'big') + k) % SECP_N, i64[32:]
+
+
+def path_secrets(src, kw, sec, multisig_helper=False):
+    """register every PRIVATE key on the way from src to the key public_master(**kw) shares (the account-level private
+    key is private material too): derived here from the specification, and - when the library can do it - by the
+    library itself (which also gives the extended-key metadata).  Returns the independently derived account secret."""
+    if not (isinstance(src, HDKey) and src.is_private and src.secret and src.chain):
+        return None
+    wt = kw.get('witness_type') or src.witness_type
+    ms = bool(multisig_helper or kw.get('multisig') or src.multisig)
+    k, c, last = src.secret, src.chain, None
+    if (wt, ms) in PM_LEVELS:
+        for lv in PM_LEVELS[(wt, ms)]:
+            idx = {'purpose': kw.get('purpose') or PM_PURPOSE[(wt, ms)], 'coin': src.network.bip44_cointype,
+                   'account': kw.get('account_id') or 0, 'script1': 1, 'script2': 2}[lv]
+            if not isinstance(idx, int) or not 0 <= idx < 0x80000000:
+                break
+            k, c = ckd_priv_hardened(k, c, idx)
+            sec.add(k)
+            sec.needles.setdefault(c + k.to_bytes(32, 'big'), 'chain||key')
+            last = k
+    try:
+        kw2 = {n: v for n, v in kw.items() if n in ('account_id', 'purpose', 'multisig', 'witness_type')}
+        if multisig_helper:
+            kw2['multisig'] = True
+        sec.add_key(copy.deepcopy(src).public_master(as_private=True, **kw2))
+    except Exception:
+        pass
+    return last
+
+
 # ------------------------------------------------------------------ Key / HDKey histories
 def make_key(cls, kind, secret, network, chain, fmt):
     s = int(secret, 16)
@@ -316,6 +400,15 @@ def apply_op(o, op, sec, idx):
         return c, None
     if op == 'ChildPub':
         return o.child_public(idx), None
+    if op.split('~')[0] in ('Pm', 'Pmm', 'Wp', 'Hw'):
+        head = op.split('~')[0]
+        kw = decode_args(op[len(head):])
+        if head in ('Pm', 'Pmm'):
+            path_secrets(o, kw, sec, multisig_helper=head == 'Pmm')
+            r = o.public_master(**kw) if head == 'Pm' else o.public_master_multisig(**kw)
+            sec.add_key(r) if asks_private(kw) else None
+            return r, None
+        return o, (o.wif_public(**kw) if head == 'Wp' else o.wif(**kw))
     if op == 'PublicMaster':
         # default arguments, another account, the multisig form, another witness type
         kw = [{}, {'account_id': idx}, {'multisig': True}, {'witness_type': 'p2sh-segwit'}][idx % 4]
@@ -416,9 +509,14 @@ def do_key(t):
             status = 'ok'
         except Exception as e:
             val, status = None, 'err'
+        head = op.split('~')[0]
         if status == 'ok' and op in ('Public', 'ChildPub', 'PublicMaster'):
             is_public = True
-        if status == 'ok' and op not in NO_EXPORT:
+        if status == 'ok' and head in ('Pm', 'Pmm'):
+            # a key handed out by public_master / public_master_multisig is a public view unless the CALLER asked
+            # for the private one (an asks-for-private argument that is true)
+            is_public = is_public or not asks_private(decode_args(op[len(head):]))
+        if status == 'ok' and op not in NO_EXPORT and head not in ('Pm', 'Pmm'):
             # (BIP38 encryption is a one-way step of the model: the value encrypt() itself returns is not a leak)
             out = 'S' if sec.find(blob_of(val), extra=op != 'Encrypt') else 'P'
         else:
@@ -784,6 +882,8 @@ def wal_apply(w, op, sec, name, uri):
         return w, [x.key() for x in aslist(tgt.public_master(as_private=True))], None
     if op == 'MainPublic':
         return w, None, [tgt.main_key.public()]
+    if op.split('~')[0] == 'PmA':
+        return w, None, aslist(tgt.public_master(**decode_args(op[3:])))
     if op in ('Pm0', 'Pm1'):
         return w, None, aslist(tgt.public_master(as_private=op == 'Pm1') if op == 'Pm1' else tgt.public_master())
     if op == 'PmKey':
@@ -930,7 +1030,7 @@ def do_wal(t):
             leaks.append('%s-raised:%s:%s' % (where, type(e).__name__, str(e)[:50].replace('|', '/')))
         if status == 'ok' and base == 'Reopen':
             wallet_secrets(w, sec)
-        if status == 'ok' and (base in WAL_OTHER_OPS or base == 'Keys'):
+        if status == 'ok' and (base in WAL_OTHER_OPS or base == 'Keys' or base.split('~')[0] == 'PmA'):
             # deriving / signing may or may not parse the cached main / account key objects again (it depends on
             # which rows exist already); the operation is made deterministic by parsing them here, which is what
             # the model's LOther does
@@ -945,7 +1045,10 @@ def do_wal(t):
         if status == 'ok' and ret is not None:
             rc = '/'.join(''.join(code_of(x, a, sec, a in HANDLES) for a in WK_FIELDS) for x in ret)
         toks.append('%s:%s:%s:%s' % (status, taint, wal_main_codes(w, sec), rc))
-        if status == 'ok' and (base in WAL_PUBLIC_OPS or base in WAL_OTHER_OPS):
+        if status == 'ok' and base.split('~')[0] == 'PmA':
+            wallet_secrets(w, sec)          # a key of another account / network / witness type may have been created
+        if status == 'ok' and (base in WAL_PUBLIC_OPS or base in WAL_OTHER_OPS or
+                               (base.split('~')[0] == 'PmA' and not asks_private(decode_args(base[3:])))):
             hit = sec.find(blob_of(val)) if val is not None else None
             if hit:
                 leaks.append('%s:%s' % (where, hit))
@@ -1050,7 +1153,213 @@ def do_dbfile_enc(t):
     return lines[-1] if lines and lines[-1] else 'CRASH child: ' + p.stderr[-200:].replace('\n', ' ')
 
 
+# ------------------------------------------------------------------ EVERY view entry point x ARGUMENT combinations
+def result_graph(r):
+    """everything reachable from what a view entry point returned."""
+    if isinstance(r, (list, tuple)):
+        return [result_graph(x) for x in r]
+    if isinstance(r, Key):
+        return hd_view_graph(r)
+    if type(r).__name__ == 'WalletKey':
+        return wk_graph(r) + [[hd_view_graph(k) for k in aslist(r.key()) if isinstance(k, Key)]]
+    return r
+
+
+def call_entry(obj, entry, kw):
+    """the value the entry point returns; for one that prints (info) the printed text."""
+    name = entry.split('.')[1]
+    attr = getattr(type(obj), name, None)
+    if isinstance(attr, property):
+        return getattr(obj, name)
+    buf = io.StringIO()
+    with contextlib.redirect_stdout(buf):
+        r = getattr(obj, name)(**kw)
+    return r if r is not None else buf.getvalue()
+
+
+def pv_run(entry, specs, fresh, shared, sec_base, leaks, secrets_for, per_spec=True):
+    """call `entry` with every argument combination: on a fresh copy of the source (complete scan of the result) and,
+    one after the other, on ONE shared object (scan of what it returns).  Sensitivity control: the same call with the
+    asks-for-private parameter set must be FOUND by the same scan."""
+    stats = {'ok': 0, 'raised': 0, 'control': 'n/a'}
+    for spec in specs:
+        kw = decode_args(spec)
+        if per_spec:
+            # (the private keys on the path of THIS call only: keeps the needle set small)
+            sec = Secrets()
+            sec.merge(sec_base)
+        else:
+            sec = sec_base
+        secrets_for(kw, sec)
+        for label, obj in (('fresh', fresh()), ('same-object', shared)):
+            try:
+                r = call_entry(obj, entry, kw)
+            except Exception as e:
+                stats['raised'] += 1
+                continue
+            stats['ok'] += 1
+            if asks_private(kw):
+                continue
+            secrets_for(kw, sec)          # (keys the call itself created: another account / network / witness type)
+            try:
+                g = result_graph(r) if label == 'fresh' else [r.__dict__ if hasattr(r, '__dict__') else r,
+                                                               pickle.dumps(r) if isinstance(r, Key) else None]
+                hit = sec.find(blob_of(g))
+            except Exception as e:
+                leaks.append('%s(%s):%s:scan-failed:%s' % (entry, spec, label, type(e).__name__))
+                continue
+            if hit:
+                leaks.append('%s(%s):%s:%s' % (entry, spec, label, hit))
+    return stats
+
+
+def pv_control(entry, params, fresh, sec_base, secrets_for):
+    """the same scan FINDS the private material when the caller asks for it (for the entry points that can be asked)."""
+    ask = [p for p in params if p in ASKS_PRIVATE]
+    if not ask:
+        return 'n/a'
+    kw = {ask[0]: True}
+    if entry == 'Wallet.keys':
+        kw = {'include_private': True, 'as_dict': True}
+    sec = Secrets()
+    sec.merge(sec_base)
+    secrets_for(kw, sec)
+    try:
+        r = call_entry(fresh(), entry, kw)
+        return 'found' if sec.find(blob_of(result_graph(r))) else 'MISSED'
+    except Exception as e:
+        return 'raised:' + type(e).__name__
+
+
+def entry_specs(tok):
+    entry, specs = tok.split('@', 1)
+    return entry, specs.split(';')
+
+
+def entry_param_names(obj, entry):
+    import inspect
+    attr = getattr(type(obj), entry.split('.')[1], None)
+    if attr is None or isinstance(attr, property):
+        return []
+    return [p for p in inspect.signature(attr).parameters if p != 'self']
+
+
+def do_pvk(t):
+    src, secret, chain, network, wt = t[1:6]
+    b = bytes.fromhex(secret)
+    ch = bytes.fromhex(chain)
+    if default_wt(network) != 'segwit':
+        wt = 'legacy'
+    sec = Secrets()
+    if src == 'key':
+        base = Key(int(secret, 16), network=network)
+    elif src == 'ms':
+        base = HDKey(key=b, chain=ch, network=network, witness_type=wt, multisig=True)
+    elif src == 'acct':
+        base = HDKey(key=b, chain=ch, network=network, witness_type=wt, depth=3, parent_fingerprint=b'\x12\x34\x56\x78',
+                     child_index=0x80000000)
+    else:
+        base = HDKey(key=b, chain=ch, network=network, witness_type=wt)
+    sec.add_key(base)
+    sec.add(int(secret, 16), (0, b'\0\0\0\0', 0, ch) if isinstance(base, HDKey) else None)
+    if src == 'warm':
+        # every cache an earlier private export can fill
+        base.wif_key(); base.wif_private(); base.as_dict(include_private=True); captured(base.info); base.address()
+        other = [p for p in WIF_PREFIXES if p != base.network.prefix_wif][0]
+        base.wif_key(prefix=other)
+    leaks, stats = [], []
+    for tok in t[6:]:
+        entry, specs = entry_specs(tok)
+        helper = entry == 'HDKey.public_master_multisig'
+
+        def secrets_for(kw, sec, helper=helper, entry=entry):
+            if entry in ('HDKey.public_master', 'HDKey.public_master_multisig'):
+                path_secrets(base, kw, sec, multisig_helper=helper)
+        shared = copy.deepcopy(base)
+        st = pv_run(entry, specs, lambda: copy.deepcopy(base), shared, sec, leaks, secrets_for)
+        st['control'] = pv_control(entry, entry_param_names(base, entry), lambda: copy.deepcopy(base), sec, secrets_for)
+        # the shared object itself is NOT a view (it is the private source), but its default exports stay clean
+        default_export_leaks(shared, sec, leaks, entry + ':source-after-calls')
+        stats.append('%s:ok=%d:raised=%d:control=%s' % (entry, st['ok'], st['raised'], st['control']))
+    return 'ok %s ## %s' % (' '.join(stats), ' | '.join(leaks) if leaks else '-')
+
+
+def do_pvw(t):
+    conf, seed, network, wt, flags = t[1:6]
+    w, sec, name, uri = make_conf_wallet(conf, seed, network, wt, flags)
+    # warm the caches of the wallet and of its key objects with the explicit private exports first
+    for c in [w] + list(w.cosigner):
+        try:
+            if c.main_key is not None:
+                c.main_key.key()
+                if c.main_key.is_private:
+                    c.wif(is_private=True)
+                    c.public_master(as_private=True)
+        except Exception:
+            pass
+    leaks, stats = [], []
+    seen_rows = set()
+
+    def refresh(kw=None, s2=None):
+        """private keys the calls themselves created (another account / network / witness type): new rows only."""
+        for c in [w] + list(w.cosigner):
+            for row in c.keys():
+                if row.id in seen_rows:
+                    continue
+                seen_rows.add(row.id)
+                if row.private:
+                    hd = None
+                    try:
+                        h = HDKey.from_wif(row.wif, network=row.network_name)
+                        hd = (h.depth, h.parent_fingerprint, h.child_index, h.chain)
+                    except Exception:
+                        pass
+                    sec.add(int.from_bytes(row.private, 'big'), hd)
+    refresh()
+    for tok in t[6:]:
+        entry, specs = entry_specs(tok)
+        cls = entry.split('.')[0]
+        targets = []
+        if cls == 'Wallet':
+            targets = [('', w)] + [(':cosigner%d' % i, c) for i, c in enumerate(w.cosigner)]
+        elif cls == 'WalletKey':
+            rows = w.keys(is_active=False)
+            targets = [(':key(%s)' % r.path, None, r.id) for r in rows[:3] + rows[-1:]]
+        st_all = {'ok': 0, 'raised': 0}
+        control = 'n/a'
+        for tg in targets:
+            if cls == 'Wallet':
+                tag, obj = tg
+                fresh = (lambda obj=obj: obj)
+                shared = obj
+            else:
+                tag, _, kid = tg
+                fresh = (lambda kid=kid: w.key(kid))
+                shared = w.key(kid)
+            lk = []
+            before = len(lk)
+            st = pv_run(entry, specs, fresh, shared, sec, lk, refresh if entry == 'Wallet.public_master' else (lambda kw, s2: None),
+                        per_spec=False)
+            leaks += [x.replace(entry + '(', entry + tag + '(', 1) for x in lk]
+            st_all['ok'] += st['ok']
+            st_all['raised'] += st['raised']
+            holder = (obj.main_key is not None and obj.main_key.is_private) if cls == 'Wallet' else shared.is_private
+            if holder and not (cls == 'Wallet' and obj.multisig and obj.cosigner):
+                refresh()
+                c = pv_control(entry, entry_param_names(shared, entry), fresh, sec, lambda kw, s2: None)
+                if control in ('n/a', 'found') and c != 'n/a':
+                    control = c
+        stats.append('%s:ok=%d:raised=%d:control=%s' % (entry, st_all['ok'], st_all['raised'], control))
+    for x in [w] + list(w.cosigner):
+        x.session.close()
+    return 'ok %s ## %s' % (' '.join(stats), ' | '.join(leaks) if leaks else '-')
+
+
 def dispatch(t):
+    if t[0] == 'pvk':
+        return do_pvk(t)
+    if t[0] == 'pvw':
+        return do_pvw(t)
     if t[0] == 'dbfile-enc':
         return do_dbfile_enc(t)
     if t[0] == 'key':
@@ -1076,7 +1385,7 @@ def answer(line):
                                       traceback.format_exc().strip().split('\n')[-3].strip()[:100])
 
 
-POOLED = ('wal', 'wallet', 'wk', 'dbfile', 'dbfile-enc')
+POOLED = ('wal', 'wallet', 'wk', 'dbfile', 'dbfile-enc', 'pvw', 'pvk')
 
 
 def main():
